@@ -98,6 +98,15 @@ func genC11(h *H) {
 		d := h.randKeyInt()
 		key := secp.NewPrivateKey(scalarFromHex(hx(be32(d))))
 		hash := h.randBytes(32)
+		switch i % 3 {
+		case 1: // messages at or above the group order, read as integers (nothing in the scheme reduces m)
+			hash = be32([]*big.Int{curveN, new(big.Int).Add(curveN, big.NewInt(1)), new(big.Int).Sub(new(big.Int).Lsh(big.NewInt(1), 256), big.NewInt(1)),
+				new(big.Int).Add(curveN, new(big.Int).SetBytes(h.randBytes(15)))}[h.rng.Intn(4)])
+		case 2:
+			if v := h.chainWalk(curveN, 32, 8); v.BitLen() <= 256 {
+				hash = be32(v)
+			}
+		}
 		sig, err := schnorr.Sign(key, hash)
 		if err != nil {
 			continue
